@@ -30,6 +30,12 @@ pub const ASN_POOL: &[u32] = &[
 pub enum Op {
     AddCa { ca: String, parent: String, asn: String, v4: String, v6: String },
     AddParent { ca: String, parent: String, asn: String, v4: String, v6: String },
+    /// Like AddCa, but the parent maps its class `name_in_parent` to
+    /// `name_for_child` before the child receives its first certificate.
+    AddCaMapped {
+        ca: String, parent: String, asn: String, v4: String, v6: String,
+        name_in_parent: String, name_for_child: String,
+    },
     RemoveParent { ca: String, parent: String },
     DeleteCa { ca: String },
     ChildUpdate { parent: String, child: String, asn: String, v4: String, v6: String },
@@ -59,6 +65,7 @@ impl Op {
         match self {
             Op::AddCa { .. } => "add_ca",
             Op::AddParent { .. } => "add_parent",
+            Op::AddCaMapped { .. } => "add_ca_mapped",
             Op::RemoveParent { .. } => "remove_parent",
             Op::DeleteCa { .. } => "delete_ca",
             Op::ChildUpdate { .. } => "child_update",
@@ -163,6 +170,26 @@ fn apply_inner(w: &mut World, op: &Op) -> Result<(), String> {
         }
         Op::AddParent { ca, parent, asn, v4, v6 } => {
             w.add_parent(ca, parent, res(asn, v4, v6)?).map_err(e)
+        }
+        Op::AddCaMapped {
+            ca, parent, asn, v4, v6, name_in_parent, name_for_child
+        } => {
+            let r = res(asn, v4, v6)?;
+            w.init_ca_with_repo(ca).map_err(e)?;
+            let presp = w.add_child_only(ca, parent, r).map_err(e)?;
+            let mapping = api::admin::ResourceClassNameMapping {
+                name_in_parent: name_in_parent.as_str().into(),
+                name_for_child: name_for_child.as_str().into(),
+            };
+            k.ca_manager().ca_child_update(
+                &h(parent), h(ca).convert(),
+                api::admin::UpdateChildRequest {
+                    id_cert: None, resources: None, suspend: None,
+                    resource_class_name_mapping: Some(mapping),
+                },
+                &actor, &k
+            ).map_err(e)?;
+            w.add_parent_only(ca, parent, presp).map_err(e)
         }
         Op::RemoveParent { ca, parent } => {
             k.ca_manager().ca_parent_remove(
@@ -584,6 +611,13 @@ impl Gen {
                     let parent = self.rng.pick(&parents).clone();
                     let (asn, v4, v6) = self.entitlement(w, &parent);
                     let name = self.fresh_name(w);
+                    if parent != "ta" && self.rng.chance(1, 3) {
+                        return Op::AddCaMapped {
+                            ca: name, parent, asn, v4, v6,
+                            name_in_parent: "0".into(),
+                            name_for_child: format!("m{}", self.next_ca),
+                        }
+                    }
                     return Op::AddCa { ca: name, parent, asn, v4, v6 }
                 }
                 7 if cas.len() >= 2 => {
